@@ -700,6 +700,14 @@ func c02Run(c c02Case, root string, rec *vh.Recorder) error {
 		}
 		if alias {
 			e.Classes = append(e.Classes, "proc-alias")
+			// the alias prefix is substituted textually, but for the kernel /proc/self and the magic link are two more
+			// symlinks of the 40 it follows per resolution: with a 38..41-link chain behind it the budget differs => not judged
+			for _, n := range c.Nodes {
+				if n.Path == "chainend" && strings.Contains(path, "/ch") {
+					e.Classes = append(e.Classes, "alias+long-chain(not asserted)")
+					return e
+				}
+			}
 		}
 		follow := c02Follow(op, second)
 		got := kresolve(base, path, follow)
